@@ -57,6 +57,9 @@ class FakeWriter:
         it is; after a peer FIN or a local close() it is not yet)."""
         while not self.wire.lost:
             await asyncio.sleep(0)
+        if self.wire.broken:
+            # connection_lost(exc) after a reset: StreamWriter.wait_closed() re-raises the exception
+            raise ConnectionResetError("fake: connection reset by peer")
 
     def is_closing(self) -> bool:
         return self._closed
